@@ -1,8 +1,8 @@
 From Coq Require Extraction.
 From Coq Require Import ExtrOcamlBasic.
-From H3V Require Import Base.Bytes Spec.RFC9000 Spec.RFC9297 Model.Varint Model.Datagram.
+From H3V Require Import Base.Bytes Spec.RFC9000 Spec.RFC9297 Model.Varint Model.Datagram Model.ChunkedBuf Model.ChunkedDatagram.
 Extraction Language OCaml.
 Extraction "C18_model.ml"
   N.add N.mul N.div_eucl N.ltb N.leb N.eqb N.min len
-  dg_new dg_encode dg_remaining dg_chunk dg_advance dg_decode dg_view dg_tx dg_rx
+  dg_new dg_encode dg_remaining dg_chunk dg_advance dg_decode dg_view dg_tx dg_rx dg_decode_buf
   rfc_dg_bytes rfc_dg_decode H3_DATAGRAM_ERROR_rfc.
